@@ -156,6 +156,33 @@ pub fn generate(ctx: &mut Ctx, rep: &mut Report, emit: &mut dyn FnMut(&mut Ctx, 
         rep.support.insert("long_run_one_millisecond".into(), serde_json::json!({"calls": n_calls, "note": "frozen clock, stepped back by 7 ms half way; consecutive sequence numbers demanded"}));
         if let Some(m) = bad { rep.oracle_fail("", "long-run-one-ms", &m); }
     }
+    // sequential histories that mix timestamp generation with the other readers of the clock (dtn_time_now,
+    // the lifetime check): reading the clock must not disturb the numbering
+    {
+        let mut clock = base + 5_000_000 + MS2K;
+        let mut maxc = 0u64;
+        let mut prev: Option<(u64, u64, u64)> = None;   // (clock at call, time, seq)
+        let mut seen = std::collections::HashSet::new();
+        let mut bad: Option<String> = None;
+        let steps = ctx.n(30_000, 1_000_000);
+        let pb = bp7::primary::PrimaryBlock::new();
+        for k in 0..steps {
+            match rng.below(8) { 0 | 1 => clock += 1, 2 => clock += 1 + rng.below(50), 3 => clock -= rng.below(3).min(clock - MS2K - 1), _ => {} }
+            bp7::verif_hooks::set_clock_ms(Some(clock));
+            match rng.below(5) { 0 => { let _ = bp7::dtn_time_now(); } 1 => { let _ = pb.is_lifetime_exceeded(); } _ => {} }
+            let t = CreationTimestamp::now();
+            let cur = (t.dtntime(), t.seqno());
+            let c = clock - MS2K;
+            if !seen.insert(cur) { bad = Some(format!("step {}: the pair (time {}, seq {}) was returned twice", k, cur.0, cur.1)); break; }
+            if c > maxc && (cur.0 != c || cur.1 != 0) && k > 0 { bad = Some(format!("step {}: first call in a later millisecond (clock {}) returned (time {}, seq {}), expected sequence number 0", k, c, cur.0, cur.1)); break; }
+            if let Some((pc, pt, ps)) = prev { if pc == c && pt == c && (cur.0 != c || cur.1 != ps + 1) { bad = Some(format!("step {}: consecutive calls in millisecond {} returned seq {} then (time {}, seq {})", k, c, ps, cur.0, cur.1)); break; } }
+            if c > maxc { maxc = c; }
+            prev = Some((c, cur.0, cur.1));
+        }
+        bp7::verif_hooks::set_clock_ms(None);
+        rep.support.insert("mixed_sequential_history".into(), serde_json::json!({"steps": steps, "note": "now() interleaved with dtn_time_now() / is_lifetime_exceeded(); clock same / later / stepped back"}));
+        if let Some(m) = bad { rep.oracle_fail("", "mixed-history", &m); }
+    }
     // free-running stress on the real clock (supporting evidence only)
     let threads = 16;
     let per = ctx.n(20_000, 200_000);
